@@ -84,7 +84,7 @@ fn canon(mut v: Vec<Item>) -> Result<Vec<Item>, String> {
     Ok(v)
 }
 
-fn configs(thorough: bool) -> Vec<Config> {
+fn configs(thorough: bool) -> Vec<(Config, usize)> {
     let mut v = vec![];
     let mk = |flop: [u8; 3], ranges: Vec<Vec<(Combo, f32)>>| {
         let label = Config::describe_ranges(&ranges);
@@ -93,15 +93,15 @@ fn configs(thorough: bool) -> Vec<Config> {
     // one player, one combo holding D[5] and D[30]: turn/river blocking only
     let f = [8u8, 26, 49];
     let d = deck_without(&f);
-    v.push(mk(f, vec![vec![(Combo::new(d[5], d[30]), 1.0)]]));
+    v.push((mk(f, vec![vec![(Combo::new(d[5], d[30]), 1.0)]]), 1));
+    // two players x two combos (player-vs-player and flop blocking): all windows in thorough,
+    // all windows with both ends on a 6-position grid in quick
+    v.push((mk(f, vec![vec![(Combo::new(d[0], d[48]), 0.5), (Combo::new(f[0], d[7]), 1.0)], vec![(Combo::new(d[0], d[20]), 1.0), (Combo::new(d[21], d[47]), 0.25)]]), if thorough { 1 } else { 6 }));
     if thorough {
-        // two players x two combos: one combo on the flop (whole positions yield nothing from it),
-        // one pair of combos sharing a card, blocked runs straddle every scope end
-        v.push(mk(f, vec![vec![(Combo::new(d[0], d[48]), 0.5), (Combo::new(f[0], d[7]), 1.0)], vec![(Combo::new(d[0], d[20]), 1.0), (Combo::new(d[21], d[47]), 0.25)]]));
         // other flops: deck gaps at the front / at the end
         for f in [[0u8, 1, 2], [49, 50, 51]] {
             let d = deck_without(&f);
-            v.push(mk(f, vec![vec![(Combo::new(d[0], d[1]), 1.0), (Combo::new(d[47], d[48]), 0.5)]]));
+            v.push((mk(f, vec![vec![(Combo::new(d[0], d[1]), 1.0), (Combo::new(d[47], d[48]), 0.5)]]), 1));
         }
     }
     v
@@ -111,7 +111,7 @@ pub fn run(tier: &str) -> i32 {
     let mut rep = Report::new("C04", tier);
     let thorough = tier == "thorough";
     let pl = positions();
-    for cfg in configs(thorough) {
+    for (cfg, grid) in configs(thorough) {
         let ranges = cfg.hand_ranges();
         let deck = deck_without(&cfg.flop);
         let mut deckpos = [255u8; 52];
@@ -153,6 +153,9 @@ pub fn run(tier: &str) -> i32 {
             let mut steps = 0u64;
             let mut windows = 0u64;
             for to in from..=1176usize {
+                if grid > 1 && (from % grid != 0 || to % grid != 0) {
+                    continue;
+                }
                 let a = pos_of(from, &pl);
                 let b = pos_of(to, &pl);
                 windows += 1;
@@ -201,11 +204,11 @@ pub fn run(tier: &str) -> i32 {
         rep.machine(steps * cfg.pi(), calls, windows);
         rep.sub(
             "all-windows",
-            "every window [from, to) with from among the 1176 positions and the terminal, to >= from (terminal (48,49) included): the scoped real evaluator is run to None plus three more next() calls and compared, position by position and in position order, with the unscoped run restricted to the window. distinct_nontrivial = windows (all distinct); evaluations = windows",
+            "every window [from, to) with from among the 1176 positions and the terminal, to >= from (terminal (48,49) included; for a configuration with grid > 1 only windows whose two ends are multiples of the grid): the scoped real evaluator is run to None plus three more next() calls and compared, position by position and in position order, with the unscoped run restricted to the window. distinct_nontrivial = windows (all distinct); evaluations = windows",
             windows,
             windows,
-            true,
-            json!({"config": cfg.key(), "windows": windows, "position_steps": steps, "next_calls": calls, "positions_with_a_legal_deal": nonempty_positions, "showdowns_unscoped": full.len()}),
+            grid == 1,
+            json!({"config": cfg.key(), "grid": grid, "windows": windows, "position_steps": steps, "next_calls": calls, "positions_with_a_legal_deal": nonempty_positions, "showdowns_unscoped": full.len()}),
         );
         rep.sample(json!({"config": cfg.key(), "window": "(10,43)->(14,18)", "showdowns": off[pos_index(14, 18)] - off[pos_index(10, 43)]}));
 
